@@ -21,6 +21,7 @@ RULE = (
     "records; plus the independent schema validator and a before/after listing of the temp directory. "
     "Non-trivial = >=2 non-empty chunks, >=1 pixel present in >=2 chunks, and (mergebuf < number of records in "
     "the fullest row, or more chunks than max_merge). Distinct by sha1 of the canonical case."
+    " Also: optional input checks switched off; a `cooler load` part (text chunks of --chunksize lines, --mergebuf, --max-merge, --temp-dir listing); a 'fresh process' part that runs the first and second create_cooler(ordered=False) of a new interpreter in a subprocess."
 )
 ASSUMPTIONS = [
     "each chunk is free of duplicate pixels (dupcheck default) and upper-triangular in symmetric mode",
